@@ -98,7 +98,7 @@ func driveC03(c *Ctx) {
 		c.Probe("empty-base-uri")
 	}
 	for _, n := range u.Nodes {
-		for _, e := range n.Next {
+		for _, e := range []*Edge{n.Next[0], n.Next[1], n.InPlace} {
 			if e != nil && e.To != nil {
 				c.Probe("ref-form:" + e.Form)
 				if e.To.Doc != n.Doc {
@@ -215,6 +215,29 @@ func (w *worldCheck) reach(res *jsonschema.Resolved, si int, limit int, ctxt str
 				return
 			}
 		}
+	}
+	// in-place references: the designated leaf applies at the hop's own location, another leaf does not
+	for pi, ip := range w.u.InPlaceProbes(w.probes) {
+		if limit > 0 && pi >= limit {
+			break
+		}
+		for k, key := range []string{ip.Applied.leafKey(), ip.Other} {
+			inst := ip.Instance(key)
+			var err error
+			r := Op(func() { err = res.Validate(inst) })
+			c.CheckOp("Validate(in-place probe)", r)
+			if r.Panicked {
+				c.Fail("C03/reach", "validate-"+r.String(), "schedule %d %s: Validate of an in-place probe did not return normally: %s", si, ctxt, r.Value)
+				return
+			}
+			wantValid := k == 1
+			if (err == nil) != wantValid {
+				c.Fail("C03/reach", "in-place:"+ip.Holder.InPlace.Form, "schedule %d %s: hop %s has the in-place reference %q to leaf %s; instance %s: valid=%v, want %v (error: %v)",
+					si, ctxt, ip.Holder.Marker, ip.Holder.InPlace.Text, ip.Applied.leafKey(), JSON(inst), err == nil, wantValid, err)
+				return
+			}
+		}
+		c.Probe("in-place-reference-probed")
 	}
 	if si == 0 && ctxt == "healthy" {
 		c.Out("reach ok over %d probes", len(w.probes))
